@@ -8,11 +8,12 @@ Open rule : first read is the 720-byte descriptor at 0; then at most ceil(lines/
             at or after the end of the previous one (front to back, non-overlapping), all inside the file.
 """
 import math
+import os
 import random
 
 import numpy as np
 
-from vf import gen, harness, refdec, selections, synth, tracefs
+from vf import audit, gen, harness, refdec, selections, synth, tracefs
 from vf.props import c02
 
 ID = "C11"
@@ -243,11 +244,19 @@ def run_case(i, tier, seed):
                 obs["loads_rejected_above_backend"] += 1
                 want = []
             tracefs.reset_log()
+            if via_cache:
+                audit.arm(())
             try:
                 selections.apply(lazy, sel).values
             except Exception:
                 # whether this selection may raise is C02's business; the reads it issued are still checked
                 pass
+            finally:
+                if via_cache:
+                    foreign = [e for e in audit.disarm() if e[0] == "open" and isinstance(e[1], str) and os.path.basename(e[1]) == img]
+                    if foreign and len(violations) < 8:
+                        violations.append({"what": f"loading pixels opened {foreign[0][1]!r} through the host's file API: the image is read through another filesystem than the product's",
+                                           "detail": {"selection": sel, "product_url": url}})
             log = list(tracefs.LOG)
             errs, ngroups = check_load_log(log, path, im, rpc, size, want)
             if errs:
